@@ -21,12 +21,50 @@ def _local(tag):
     return tag.split('}', 1)[1] if '}' in tag else tag
 
 
-def read_doc(path):
-    """-> list of elements (document pre-order), each dict(kind,id,parent,children,initial,transitions,has_initial_child)"""
+def nested_machines(path):
+    """<scxml> elements nested directly in <invoke><content> of the top machine, in document order of the invokes
+    (ChartToC::findNestedMachines); None if the document uses forms this reader does not follow (src=, deeper nesting)."""
     try:
         root = ET.parse(path).getroot()
     except ET.ParseError as e:
         raise DocError('cannot parse %s: %s' % (path, e))
+    ns = root.tag[:-len('scxml')]
+    found, exotic = [], [False]
+
+    def walk(el, depth):
+        for ch in el:
+            if not isinstance(ch.tag, str):
+                continue
+            t = _local(ch.tag)
+            if t == 'invoke' and ch.tag.startswith(ns):
+                ty = ch.get('type')
+                if ty is not None and ty not in ('scxml', 'http://www.w3.org/TR/scxml/'):
+                    continue
+                if ch.get('src') is not None:
+                    exotic[0] = True
+                    continue
+                contents = [c for c in ch if isinstance(c.tag, str) and _local(c.tag) == 'content']
+                if not contents:
+                    continue
+                sc = [c for c in contents[0] if isinstance(c.tag, str) and _local(c.tag) == 'scxml']
+                if not sc:
+                    continue
+                found.append(sc[0])
+                if any(_local(x.tag) == 'invoke' for x in sc[0].iter() if isinstance(x.tag, str)):
+                    exotic[0] = True
+            elif t in ('state', 'parallel', 'final'):
+                walk(ch, depth + 1)
+    walk(root, 0)
+    return None if exotic[0] else found
+
+
+def read_doc(path, root=None):
+    """-> list of elements (document pre-order), each dict(kind,id,parent,children,initial,transitions,has_initial_child)"""
+    if root is None:
+        try:
+            root = ET.parse(path).getroot()
+        except ET.ParseError as e:
+            raise DocError('cannot parse %s: %s' % (path, e))
     if _local(root.tag) != 'scxml':
         raise DocError('root is not <scxml>')
     ns = root.tag[:-len('scxml')]
@@ -63,13 +101,13 @@ def read_doc(path):
     return elems
 
 
-def parse_emitted(ctext):
+def parse_emitted(ctext, index=0):
     """Correspondence data only: names/parents/kinds of the emitted states and sources of the emitted
-    transitions of the TOP machine (USCXML_MACHINE)."""
-    m = re.search(r'#\s*define\s+USCXML_MACHINE\s+(\w+)_machine\b', ctext)
-    if not m:
-        raise DocError('USCXML_MACHINE not defined in emitted file')
-    prefix = m.group(1)
+    transitions of the index-th machine of the file (0 = the top machine, USCXML_MACHINE)."""
+    prefixes = re.findall(r'#\s*define\s+USCXML_MACHINE\s+(\w+)_machine\b', ctext)
+    if not prefixes or index >= len(prefixes):
+        raise DocError('machine %d not defined in emitted file (%d machines)' % (index, len(prefixes)))
+    prefix = prefixes[index]
     ms = re.search(r'static const uscxml_state %s_states\[(\d+)\] = \{(.*?)\n\};' % re.escape(prefix), ctext, re.S)
     if not ms:
         raise DocError('states array of %s not found' % prefix)
@@ -143,10 +181,10 @@ def c_str(s):
     return '"' + s.replace('\\', '\\\\').replace('"', '\\"').replace('\n', '\\n').replace('\t', '\\t').replace('\r', '\\r') + '"'
 
 
-def facts_c(doc_path, ctext):
-    """-> (C text with the d_* constants, info dict)"""
-    elems = read_doc(doc_path)
-    em = parse_emitted(ctext)
+def facts_c(doc_path, ctext, index=0, root=None):
+    """-> (C text with the d_* constants, info dict) for the index-th machine (root = its <scxml> element)"""
+    elems = read_doc(doc_path, root)
+    em = parse_emitted(ctext, index)
     e2d = match(elems, em)
     d2e = {d: k for k, d in enumerate(e2d)}
     byid = {e['id']: i for i, e in enumerate(elems) if e['id'] is not None}
